@@ -363,6 +363,9 @@ pub trait Subject: BitVector + Clone + Sized + 'static {
     fn bv_cmp(l: &Bv, y: &Self) -> CmpObs;
     fn bvd_bin(l: &Bvd, op: Op, form: Form, y: &Self) -> Bvd;
     fn bv_bin(l: &Bv, op: Op, form: Form, y: &Self) -> Bv;
+    /// `a op r` with a dynamic / auto right-hand operand (operand production paths)
+    fn with_bvd(a: &Self, op: Op, form: Form, r: &Bvd) -> Self;
+    fn with_bv(a: &Self, op: Op, form: Form, r: &Bv) -> Self;
     /// convert to type `ty` and back (None when the forward conversion reports an error or, for
     /// `by_val`, bva has no by-value form for that pair)
     fn roundtrip_via(&self, ty: usize, by_val: bool) -> Option<Result<Self, String>>;
@@ -449,6 +452,12 @@ macro_rules! common_subject_items {
         }
         fn bv_bin(l: &Bv, op: Op, form: Form, y: &Self) -> Bv {
             <Bv as Pair<$T>>::bin(l, op, form, y)
+        }
+        fn with_bvd(a: &Self, op: Op, form: Form, r: &Bvd) -> Self {
+            <$T as Pair<Bvd>>::bin(a, op, form, r)
+        }
+        fn with_bv(a: &Self, op: Op, form: Form, r: &Bv) -> Self {
+            <$T as Pair<Bv>>::bin(a, op, form, r)
         }
         fn try_from_longer(ty: usize, len: usize, pattern: usize) -> Option<Result<(usize, usize), String>> {
             $crate::with_type!(ty, B, {
